@@ -543,7 +543,8 @@ class QasmModule(ABC):  # pylint: disable=too-many-instance-attributes
             self.accept(visitor)
             # a check-only visit produces no statements: the unrolled program stays as it was
             self._unrolled_ast.statements = unrolled_stmts
-        except (ValidationError, NotImplementedError) as err:
+        except Exception as err:
+            # whatever interrupted the visit, the module is as if it had not been validated
             self.num_qubits, self.num_clbits = -1, -1
             raise err
         self._validated_program = True
@@ -558,9 +559,11 @@ class QasmModule(ABC):  # pylint: disable=too-many-instance-attributes
             self.accept(visitor)
             # the flags are answered from the unrolled statements from now on
             self._has_measurements, self._has_barriers = None, None
-        except (ValidationError, UnrollError) as err:
-            # reset the unrolled ast and qasm
+        except Exception as err:
+            # reset the unrolled ast and qasm: whatever interrupted the visit, the module is
+            # as if it had not been processed (validate() has to run again, too)
             self.num_qubits, self.num_clbits = -1, -1
+            self._validated_program = False
             self._unrolled_ast = Program(statements=[], version=self.original_program.version)
             raise err
 
